@@ -268,7 +268,7 @@ func same(a, b ssa.Value, d int) bool {
 // FieldOf: if v is a load (or address) of field fieldName of some struct value, return
 // the base object and true. Works through FieldAddr+load and Field.
 func FieldOf(v ssa.Value, fieldName string) (ssa.Value, bool) {
-	v = Strip(v)
+	v = resolveBoundary(Strip(v))
 	if u, ok := v.(*ssa.UnOp); ok && u.Op == token.MUL {
 		v = u.X
 	}
@@ -290,8 +290,9 @@ func FieldOf(v ssa.Value, fieldName string) (ssa.Value, bool) {
 // FieldPath: if v is a load of a chain of fields a.b.c (through pointer loads), return
 // the names outermost-last and the root value.
 func FieldPath(v ssa.Value) (root ssa.Value, path []string) {
-	v = Strip(v)
+	v = resolveBoundary(Strip(v))
 	for {
+		v = resolveBoundary(v)
 		if u, ok := v.(*ssa.UnOp); ok && u.Op == token.MUL {
 			if fa, ok := u.X.(*ssa.FieldAddr); ok {
 				st := deref(fa.X.Type()).Underlying().(*types.Struct)
@@ -500,6 +501,32 @@ func FieldOfDeep(v ssa.Value, fieldName string) (ssa.Value, bool) {
 func DerefOnce(v ssa.Value) ssa.Value {
 	if u, ok := StripConv(v).(*ssa.UnOp); ok && u.Op == token.MUL {
 		return u.X
+	}
+	return v
+}
+
+// resolveBoundary steps across the boundary of a helper when v is a parameter, a free
+// variable or the result of a private helper (not through loads of cells).
+func resolveBoundary(v ssa.Value) ssa.Value {
+	for i := 0; i < 4; i++ {
+		switch x := v.(type) {
+		case *ssa.Parameter, *ssa.FreeVar, *ssa.Call, *ssa.Extract:
+			if par, isPar := x.(*ssa.Parameter); isPar {
+				// never above the function the rule is about
+				if _, bound := paramBind[par]; !bound {
+					if ctxRoot == nil || par.Parent() == ctxRoot || !inSet(Reach(ctxRoot), par.Parent()) {
+						return v
+					}
+				}
+			}
+			r, ok := resolveOnce(v)
+			if !ok {
+				return v
+			}
+			v = Strip(r)
+		default:
+			return v
+		}
 	}
 	return v
 }
